@@ -112,6 +112,36 @@ def file_cases(thorough, seed):
             c.composition.update({c.canon(n.upper() if n != "e-" else "E-"): v for n, v in pool.items()})
         out.append(c)
     out.append(_krome_blocks(thorough, seed))
+    out += _grain_model_cases()
+    return out
+
+
+# gas-grain species of the Leeds-format grain corpus (hand-written; 'G' is the format's ice prefix)
+_GG = {"C": ({"C": 1}, 0), "C+": ({"C": 1}, 1), "CH4": ({"C": 1, "H": 4}, 0), "CO": ({"C": 1, "O": 1}, 0), "CO2": ({"C": 1, "O": 2}, 0), "H": ({"H": 1}, 0), "H+": ({"H": 1}, 1), "H2": ({"H": 2}, 0),
+       "H2O": ({"H": 2, "O": 1}, 0), "H3O+": ({"H": 3, "O": 1}, 1), "HCO": ({"H": 1, "C": 1, "O": 1}, 0), "HCO+": ({"H": 1, "C": 1, "O": 1}, 1), "O": ({"O": 1}, 0), "e-": ({}, -1),
+       "GRAIN0": ({"GRAIN": 1}, 0), "GRAIN-": ({"GRAIN": 1}, -1)}
+for _g in ("CH4", "CO", "CO2", "H", "H2", "H2O", "HCO", "O"):
+    _GG["G" + _g] = _GG[_g]
+    _GG["#" + _g] = _GG[_g]
+
+
+def _grain_model_cases():
+    """balanced gas-grain reactions (accretion, desorption, cation-grain recombination, electron capture, surface
+    two-body, reactive desorption) read from a Leeds-format file and rendered under a dust model: the rate builders
+    of the model run before the right-hand side is assembled"""
+    from . import encoders
+    from .checks import c11
+
+    def bal(l):
+        return _vec(_GG, [x for x in l["reactants"]]) == _vec(_GG, [x for x in l["products"]])
+
+    lines = [dict(l, idx=k + 1) for k, l in enumerate(x for x in c11.leeds_lines() if all(n in _GG for n in x["reactants"] + x["products"]) and bal(x))]
+    text = "\n".join(encoders.ENC["leeds"](l) for l in lines) + "\n"
+    out = []
+    for model in ("hh93", "hh93i"):
+        c = Case(f"BALF-leeds-{model}", {"files": [{"name": "gg.leeds", "content": text}], "network": {"filelist": "gg.leeds", "fileformats": "leeds", "grain_model": model}}, tags={"balanced"})
+        c.composition = {c.canon(n): v for n, v in _GG.items()}
+        out.append(c)
     return out
 
 
